@@ -1,2 +1,54 @@
+"""Tree part of C08: optimize_ttns energies are upper bounds and exact at sufficient bond dimension (bounded)."""
+import numpy as np
+
+from vk.rtc.harness import run_cases
+from vk.specs import tree as T
+from vk.specs import treeuniv as TU
+from vk.specs import chain as S
+
+
+def worker(case, led):
+    n_nodes, flavour, seed, tier = case
+    from renormalizer.tn import optimize_ttns
+    su = TU.setup(seed, n_nodes, flavour, max_dim=200)
+    if su is None or len(su["bt"].node_list) < 2:
+        return
+    bt, order, model, H, Hd, sectors, rng = su["bt"], su["order"], su["model"], su["H"], su["Hd"], su["sectors"], su["rng"]
+    q = sectors[len(sectors) // 2]
+    mask = S.sector_mask(model, q)
+    lam = np.linalg.eigvalsh(Hd[np.ix_(mask, mask)])
+    scale = max(1.0, np.abs(lam).max())
+    for M in (32, 2):
+        a = TU.random_ttns(bt, q, 4, rng)
+        if a is None:
+            return
+        key = (repr(su["shape"]), flavour, seed, M)
+        rep = dict(TU.describe_tree(bt), flavour=flavour, seed=seed, sector=q, M=M, exact_ground_energy=float(lam[0]))
+        st = np.random.get_state()
+        np.random.seed(seed + 5)
+        try:
+            e_list = optimize_ttns(a, H, procedure=[[M, 0.4], [M, 0.2], [M, 0.0], [M, 0.0]])
+        except Exception as e:
+            led.check(False, "post:optimize_ttns:total", "optimize_ttns", f"raised {type(e).__name__}: {e}", key, {"M": M}, rep)
+            continue
+        finally:
+            np.random.set_state(st)
+        E = np.asarray(e_list, dtype=float)
+        led.check(np.all(E >= lam[0] - 1e-9 * scale), "post:optimize_ttns:energies_are_upper_bounds", "optimize_ttns", f"reported {E.min():.10f} < exact {lam[0]:.10f}", key + ("var",), {"M": M}, rep)
+        v = T.dense_ttns(a, order)
+        leak = float(np.abs(v[~mask]).max()) if (~mask).any() else 0.0
+        # optimize_ttns updates its argument in place and returns energies only; after a truncating update the state is not renormalised,
+        # so normalisation is required at sufficient bond dimension and the Rayleigh quotient is used otherwise
+        led.check((abs(np.linalg.norm(v) - 1) <= 1e-8 or M != 32) and leak <= 1e-9 and not T.qnv_tree_violations(a), "post:optimize_ttns:state_normalised_in_sector", "optimize_ttns",
+                  f"norm {np.linalg.norm(v):.10f}, leak {leak:.1e}", key + ("state",), {"M": M}, rep)
+        es = np.vdot(v, Hd @ v).real / max(np.vdot(v, v).real, 1e-300)
+        led.check(es >= lam[0] - 1e-9 * scale, "post:optimize_ttns:state_energy_is_upper_bound", "optimize_ttns", f"{es} < {lam[0]}", key + ("evar",), {"M": M}, rep)
+        if M == 32:
+            led.check(abs(E[-1] - lam[0]) <= 1e-6 * scale and abs(es - lam[0]) <= 1e-6 * scale, "post:optimize_ttns:exact_at_sufficient_bond_dimension", "optimize_ttns",
+                      f"final {E[-1]:.10f}, state {es:.10f}, exact {lam[0]:.10f}", key + ("exact",), {"M": M}, rep)
+
+
 def check(run):
-    pass
+    seeds = list(range(run.seed * 100, run.seed * 100 + (2 if run.tier == "quick" else 6)))
+    cases = [(nn, fl, s, run.tier) for s in seeds for nn in (2, 3, 4) for fl in ("spinqn", "holstein")]
+    run_cases(run, worker, cases)
